@@ -81,8 +81,27 @@ class NP(Backend):
     name = "np"
     tol = 1e-9
 
+    flavours = None   # when set (a numpy Generator), every array handed to the library gets a random legal form
+    flavour_counts = {}
+
     def arr(self, x):
-        return np.array(x, dtype=np.int64)
+        a = np.array(x, dtype=np.int64)
+        if self.flavours is None or a.ndim == 0 or a.size == 0:
+            return a
+        k = int(self.flavours.integers(5))
+        name = ["int64-C", "int32", "fortran", "strided-view", "negative-step-view"][k]
+        self.flavour_counts[name] = self.flavour_counts.get(name, 0) + 1
+        if k == 1:
+            return a.astype(np.int32)
+        if k == 2 and a.ndim == 2:
+            return np.asfortranarray(a)
+        if k == 3:   # every second element of a wider buffer along the last axis
+            big = np.zeros(a.shape[:-1] + (2 * a.shape[-1],), dtype=np.int64)
+            big[..., ::2] = a
+            return big[..., ::2]
+        if k == 4:
+            return a[..., ::-1].copy()[..., ::-1]
+        return a
 
     def carr(self, x):
         return np.array(x, dtype=np.complex128)
